@@ -347,3 +347,32 @@ def block_size_field(ctx, prog):
             ok = ce is not None and ce[0] == "call" and ce[1].endswith("checked_add") and canon(strip(ce[2][1])).startswith("Sub(") and canon(strip(ce[2][1])).endswith(",48)")
             why += " ; closure: %s" % (show(ce)[:120] if ce else None)
     ctx.ob(R, "parse_block_size_from_bytes accumulates block_size*10 + (ch - '0') with overflow detection (checked_mul / checked_add)", ok, why, f.loc())
+
+
+def entry_forms(ctx, prog):
+    """all parse entry points are the one driver on the caller's bytes: from_str(s) = from_bytes(s.as_bytes()),
+    from_bytes(b) = driver(b, &mut <fresh index>), from_bytes_with_last_index(b, i) = driver(b, i)"""
+    RD = "SA-DELEGATE"
+    ctx.rule(RD, "a public form obtains its result only from the named single implementation (resolved call graph), so a property shown for that implementation holds for every form")
+    n = 0
+    for f in prog.fns:
+        if f.impl_trait == "core::str::FromStr" and f.path.endswith("::from_str") and ("FuzzyHashData" in f.impl_self or "FuzzyHashDualData" in f.impl_self):
+            n += 1
+            ctx.visit(f)
+            e = strip(Sym(f).local(0))
+            ok = e[0] == "call" and e[1].endswith("::from_bytes") and len(e[2]) == 1
+            if ok:
+                a = strip(e[2][0])
+                ok = a[0] == "call" and a[1].endswith("str>::as_bytes") and is_param(a[2][0], "s")
+            ctx.ob(RD, "%s = from_bytes(s.as_bytes()) (the text is handed over unchanged)" % f.short, ok, show(e)[:160], f.loc())
+        if f.path.endswith("::from_bytes") and f.exported and ("FuzzyHashData" in f.path or "FuzzyHashDualData" in f.path):
+            n += 1
+            ctx.visit(f)
+            sy = Sym(f)
+            e = strip(sy.local(0))
+            ok = e[0] == "call" and e[1].endswith("::from_bytes_with_last_index_internal") and is_param(e[2][0], "str")
+            if ok:
+                ix = sy.origin(strip(e[2][1]))
+                ok = const_value(ix) == 0 or strip(ix)[0] == "local"
+            ctx.ob(RD, "%s = driver(str, &mut <fresh index>)" % f.short, ok, show(e)[:160], f.loc())
+    ctx.floor(RD, n, 4, "from_str / from_bytes entry forms")
